@@ -308,6 +308,32 @@ func jobC18(c *rt.Ctx) {
 			B2 = append(B2, s3)
 		}
 	}
+	// ... and the rest of the documented domain of the after-basic forms ("a and/or b are the result
+	// of a basic op (add, sub)"): a subtraction result first, and both operands one-level results
+	for i := range B1ss {
+		for j := range Rs {
+			if (i*5+j)%13 != 0 && !(j >= len(Rs)-len(sp)) {
+				continue
+			}
+			var e elem
+			AddAfterBasic(&e.x, &B1ss[i].x, &Rs[j].x)
+			e.v, e.class = fadd(B1ss[i].v, Rs[j].v), "B2"
+			B2 = append(B2, e)
+			k := (i + j) % len(B1as)
+			var e2 elem
+			AddAfterBasic(&e2.x, &B1as[k].x, &B1as[(k+1)%len(B1as)].x)
+			e2.v, e2.class = fadd(B1as[k].v, B1as[(k+1)%len(B1as)].v), "B2"
+			B2 = append(B2, e2)
+			var e3 elem
+			AddAfterBasic(&e3.x, &B1ss[i].x, &B1ss[(i+1)%len(B1ss)].x)
+			e3.v, e3.class = fadd(B1ss[i].v, B1ss[(i+1)%len(B1ss)].v), "B2"
+			B2 = append(B2, e3)
+			var e4 elem
+			SubAfterBasic(&e4.x, &B1ss[i].x, &B1as[k].x)
+			e4.v, e4.class = fsub(B1ss[i].v, B1as[k].v), "B2"
+			B2 = append(B2, e4)
+		}
+	}
 	B2s := pick(B2, nsub)
 	Ns := pick(N, nsub/2)
 	c.Extra("class_B1_elements", int64(len(B1a)+len(B1s)))
